@@ -77,7 +77,7 @@ def run(ctx):
                                      "weight-only/float16 rewrite must be DEQUANTIZE-on-constant, placed before use, outputs underived")
             fnum.compare_float_modes(ctx, interp, case, res, fp.failer(ctx, case))
     try:
-        fp.explore(ctx, drv, 130 if ctx.tier == "quick" else 2500, per_case, gen=gen, graph_corr=False, pipe_corr=True)
+        fp.explore(ctx, drv, 400 if ctx.tier == "quick" else 2500, per_case, gen=gen, graph_corr=False, pipe_corr=True)
     finally:
         interp.close()
         drv.close()
